@@ -29,7 +29,10 @@ Auto == 99
 VARIABLES nodes, stack, out, phase
 vars == <<nodes, stack, out, phase>>
 
-Kinds == {"block", "inline", "iblock", "float"}
+\* "flex": a flex container without element children (Rich families): a block-level box of its parent whose text is an
+\* anonymous flex item. (The painting of flex items - like inline-blocks, CSS Flexbox 4.3 - is not modelled: the implementation
+\* paints them like blocks, as WeasyPrint does.)
+Kinds == IF Rich THEN {"block", "inline", "iblock", "float", "flex"} ELSE {"block", "inline", "iblock", "float"}
 Poss == IF Rich THEN {"static", "relative", "absolute"} ELSE {"static", "relative"}
 \* mirror: the box declares a transform (a reflection: negative determinant), which creates a stacking context and applies
 \* to its whole sub-tree (at most one of opac / mirror per box)
@@ -38,7 +41,7 @@ Node(n) == IF Wide THEN [parent : {0}, kind : {"block"}, pos : {"relative"}, z :
                          mirror : (IF Rich THEN BOOLEAN ELSE {FALSE})] : ~(x.opac /\ x.mirror)}
 N == Len(nodes)
 Par(i) == nodes[i].parent
-Kind(i) == IF i = 0 THEN "block" ELSE nodes[i].kind
+Kind(i) == IF i = 0 THEN "block" ELSE IF nodes[i].kind = "flex" THEN "block" ELSE nodes[i].kind
 Positioned(i) == i # 0 /\ nodes[i].pos # "static"
 \* a real stacking context: the root, positioned with an integer z-index, opacity < 1, or a transform
 Creates(f, i) == i = 0 \/ (Positioned(i) /\ nodes[i].z # Auto) \/ nodes[i].opac \/ nodes[i].mirror \/ (f /\ nodes[i].clip)
@@ -102,6 +105,7 @@ AddNode == /\ phase = "build" /\ Len(nodes) < MaxNodes
            /\ \E x \in Node(Len(nodes) + 1) :
                  /\ x.parent \in (IF nodes = <<>> THEN {0} ELSE Anc(nodes, Len(nodes)))
                  /\ (x.parent # 0 /\ nodes[x.parent].kind = "inline" => x.kind = "inline")       \* no block inside inline
+                 /\ (x.parent # 0 => nodes[x.parent].kind # "flex")                               \* flex containers hold text only
                  /\ (x.kind = "inline" => x.pos = "static" /\ ~x.opac /\ ~x.clip /\ ~x.mirror)                \* inline boxes are plain
                  /\ (x.pos = "static" => x.z = Auto)                                             \* z-index only applies to positioned boxes
                  /\ ~(x.kind = "float" /\ x.pos = "absolute")                                    \* (float computes to none)
@@ -164,5 +168,7 @@ Terminates == (phase = "paint") ~> (phase = "done")
 \* overflow: hidden, except those that an absolutely positioned box on the way escapes (its containing block is further up)
 Escapes(a, i) == nodes[a].pos = "static" /\ \E k \in 1..N : (k = i \/ IsAnc(k, i)) /\ IsAnc(a, k) /\ nodes[k].pos = "absolute"
 ClipAnc(i) == {a \in 1..N : IsAnc(a, i) /\ nodes[a].clip /\ ~Escapes(a, i)}
-EmitScn == phase = "done" => PrintT(ToJson([nodes |-> nodes, order |-> out, impl |-> Order(TRUE, 0), clips |-> [i \in 1..N |-> ClipAnc(i)]]))
+EmitScn == phase = "done" => PrintT(ToJson([nodes |-> nodes, order |-> out, impl |-> Order(TRUE, 0), clips |-> [i \in 1..N |-> ClipAnc(i)],
+                                                 \* the content of a box is also clipped by the box itself
+                                                 textclips |-> [i \in 1..N |-> ClipAnc(i) \cup (IF nodes[i].clip THEN {i} ELSE {})]]))
 =============================================================================
